@@ -50,3 +50,31 @@ VARIANTS = [
         "                estimated_objects_.remove(est_object)\n                ground_truth_objects_.remove(gt_object)\n\n    # 2. matching based on same ID",
         "                ground_truth_objects_.remove(gt_object)\n                estimated_objects_.remove(est_object)\n\n    # 2. matching based on same ID")]),
 ]
+
+VARIANTS += [
+    dict(name="seed2-gt-index-keyed-by-uuid-only", kind="break", rule="C11-match-guard", edits=[("evaluation/result/object_result.py",
+        """    for est_object in estimated_objects:
+        for gt_object in ground_truth_objects:
+            if est_object.uuid is None or gt_object.uuid is None:
+                raise RuntimeError(
+                    f"uuid of estimation and ground truth must be set, but got {est_object.uuid} and {gt_object.uuid}"
+                )
+            if est_object.uuid == gt_object.uuid and est_object.frame_id == gt_object.frame_id:
+                object_results.append(
+                    DynamicObjectWithPerceptionResult(estimated_object=est_object, ground_truth_object=gt_object)
+                )
+                estimated_objects_.remove(est_object)
+                ground_truth_objects_.remove(gt_object)
+""", """    gt_table = {gt_object.uuid: gt_object for gt_object in ground_truth_objects}
+    for est_object in estimated_objects:
+        if est_object.uuid is None or None in gt_table:
+            raise RuntimeError("uuid of estimation and ground truth must be set")
+        gt_object = gt_table.get(est_object.uuid)
+        if gt_object is not None and est_object.frame_id == gt_object.frame_id:
+            object_results.append(
+                DynamicObjectWithPerceptionResult(estimated_object=est_object, ground_truth_object=gt_object)
+            )
+            estimated_objects_.remove(est_object)
+            ground_truth_objects_.remove(gt_object)
+""")]),
+]
